@@ -1,11 +1,14 @@
 #!/bin/sh
-# usage: seedmatrix_par.sh [workers] [seed-glob]
+# usage: seedmatrix_par.sh [workers] [seed-glob | @file-with-seed-names]
 # Parallel variant of seedmatrix.sh on scratch worktrees (/tmp/seedwt-<i>, removed at the end); writes seeded/matrix.tsv.
 n=${1:-3}; glob=${2:-C*}
 V=$(cd "$(dirname "$0")/.." && pwd)   # the checkout the matrix runs from (a vp run snapshot works)
 out=$V/seeded/matrix.tsv
 tmp=/dev/shm/seedmatrix.$$; mkdir -p $tmp
-ls -d $V/seeded/$glob/ | sort > $tmp/all
+case "$glob" in
+  @*) for s in $(cat "${glob#@}"); do echo "$V/seeded/$s/"; done | sort > $tmp/all ;;   # @file: a list of seed names
+  *) ls -d $V/seeded/$glob/ | sort > $tmp/all ;;
+esac
 i=0
 while [ $i -lt $n ]; do
   (
